@@ -755,8 +755,8 @@ func (e *Engine) initIntrinsics() {
 	I["math/rand.Intn"] = func(e *Engine, a []Value, pos token.Pos, fn *ssa.Function) Value {
 		n := a[0].(*Term)
 		e.runtimePanic("rand.Intn: non-positive argument", pos, tb.Cmp(OpSLE, n, tb.Int(0)))
-		if n.IsConst() && n.C == 1 {
-			return tb.Int(0)
+		if n.IsConst() && (n.C == 1 || int64(n.C) <= 0) {
+			return tb.Int(0) // (non-positive: the path has panicked above; no range assumption that would falsify everything)
 		}
 		r := e.fresh("rand.Intn", "int64", BV64)
 		if n.IsConst() {
